@@ -14,9 +14,12 @@ struct bn_0 { BN_HDR; };
 BN_TYPE(1); BN_TYPE(2); BN_TYPE(3); BN_TYPE(4); BN_TYPE(5); BN_TYPE(6); BN_TYPE(7); BN_TYPE(8);
 
 #define BN_POOL 6
-static struct bn_0 bn_pool0[BN_POOL]; static struct bn_1 bn_pool1[BN_POOL]; static struct bn_2 bn_pool2[BN_POOL];
-static struct bn_3 bn_pool3[BN_POOL]; static struct bn_4 bn_pool4[BN_POOL]; static struct bn_5 bn_pool5[BN_POOL];
-static struct bn_6 bn_pool6[BN_POOL]; static struct bn_7 bn_pool7[BN_POOL]; static struct bn_8 bn_pool8[BN_POOL];
+/* every pool slot is its own top-level object: an access past the end of one allocation is an
+ * out-of-bounds obligation (elements of one array would be a single object for CBMC) */
+#define BN_SLOTS(n) static struct bn_##n bn_p##n##_0, bn_p##n##_1, bn_p##n##_2, bn_p##n##_3, bn_p##n##_4, bn_p##n##_5
+BN_SLOTS(0); BN_SLOTS(1); BN_SLOTS(2); BN_SLOTS(3); BN_SLOTS(4); BN_SLOTS(5); BN_SLOTS(6); BN_SLOTS(7); BN_SLOTS(8);
+#define BN_PICK(n, k) ((k) == 0 ? (void*)&bn_p##n##_0 : (k) == 1 ? (void*)&bn_p##n##_1 : (k) == 2 ? (void*)&bn_p##n##_2 : \
+                       (k) == 3 ? (void*)&bn_p##n##_3 : (k) == 4 ? (void*)&bn_p##n##_4 : (void*)&bn_p##n##_5)
 static int bn_used[9];
 int bn_allocs;          /* ghost: number of allocations */
 unsigned long bn_expect_words[8]; int bn_expect_n;   /* optional: expected word count per allocation ordinal */
@@ -39,9 +42,9 @@ static void *bn_alloc(size_t size) {
   int k = bn_used[n]++;
   void *r;
   switch (n) {
-  case 0: r = &bn_pool0[k]; break; case 1: r = &bn_pool1[k]; break; case 2: r = &bn_pool2[k]; break;
-  case 3: r = &bn_pool3[k]; break; case 4: r = &bn_pool4[k]; break; case 5: r = &bn_pool5[k]; break;
-  case 6: r = &bn_pool6[k]; break; case 7: r = &bn_pool7[k]; break; default: r = &bn_pool8[k]; break;
+  case 0: r = BN_PICK(0, k); break; case 1: r = BN_PICK(1, k); break; case 2: r = BN_PICK(2, k); break;
+  case 3: r = BN_PICK(3, k); break; case 4: r = BN_PICK(4, k); break; case 5: r = BN_PICK(5, k); break;
+  case 6: r = BN_PICK(6, k); break; case 7: r = BN_PICK(7, k); break; default: r = BN_PICK(8, k); break;
   }
   verif_register(r);
   return r;
